@@ -1208,6 +1208,46 @@ def t_omerc_uc(cx):
                 x = mir.strip_refs(a[0])
                 if x[0] == "bin" and x[1] == "Div" and "alpha" in _keys_deep(f, x[3]):
                     seen_atan += 1
+        # ... SIGN(phi_c): wherever uc enters a written coordinate it carries the hemisphere of the projection centre - as a
+        # factor signum(latc) of its definition, or through copysign(uc, latc) where it is used (either is enough)
+        def is_uc(y):
+            if y[0] == "call" and isinstance(y[1], str) and y[1].rsplit("::", 1)[-1] == "atan" and y[2]:
+                x = mir.strip_refs(y[2][0])
+                return x[0] == "bin" and x[1] == "Div" and "alpha" in _keys_deep(f, x[3])
+            return False
+
+        def mentions(y, pred):
+            hit = []
+            mir.walk(y, lambda z: (hit.append(1) if pred(z) else None) or not hit)
+            return bool(hit)
+
+        def signed(w):
+            ok_ = []
+
+            def vis(z):
+                if z[0] == "bin" and z[1] == "Mul":
+                    for a_, b_ in ((z[2], z[3]), (z[3], z[2])):
+                        if mentions(a_, is_uc) and mentions(b_, lambda q: q[0] == "call" and isinstance(q[1], str) and
+                                                            q[1].rsplit("::", 1)[-1] == "signum" and "latc" in _keys_deep(f, q)):
+                            ok_.append(1)
+                if z[0] == "call" and isinstance(z[1], str) and z[1].rsplit("::", 1)[-1] == "copysign" and len(z[2]) == 2:
+                    if mentions(z[2][0], is_uc) and "latc" in _keys_deep(f, z[2][1]):
+                        ok_.append(1)
+                return True
+            mir.walk(w, vis)
+            return bool(ok_)
+        unsigned = []
+        for pt in pertuple.per_tuple_loops(f):
+            for (wb, e, nn) in written_xy_terms(f, pt):
+                for w in (e, nn):
+                    if mentions(w, is_uc) and not signed(w):
+                        unsigned.append(wb)
+        if seen_atan:
+            cx.ob("T-OMERC-UC", role + "/hemisphere", not unsigned,
+                  "omerc %s: uc carries the sign of latc wherever it enters a coordinate" % role if not unsigned else
+                  "omerc %s uses the centre's u coordinate without the hemisphere sign SIGN(latc): for a projection centre on the "
+                  "southern hemisphere (variant B) the centre no longer maps to the false origin but 2 |uc| away along the "
+                  "initial line" % role, cx.where(f.term(unsigned[0])["span"]) if unsigned else cx.where(f.d["span"]))
         n += 1
         ok = not bad and seen_atan > 0
         cx.ob("T-OMERC-UC", role, ok,
@@ -1217,3 +1257,35 @@ def t_omerc_uc(cx):
                "anchor-missing: omerc %s has no atan[(..) / cos(alpha)] outside its loop" % role),
               cx.where(bad[0]) if bad else cx.where(f.d["span"]))
     cx.count("T-OMERC-UC", "functions", n)
+
+
+@rule("R-LAT2-SENTINEL", ["C05", "C13"])
+def r_lat2_sentinel(cx):
+    """lcc takes one or two standard parallels. `lat_2` not given means the tangent cone at lat_1 - and only that: every
+    latitude, the equator included, is a legitimate second parallel (`lat_1=30 lat_2=0` is a secant cone with scale k_0 on
+    both). In lcc::new a decision that looks at lat_2 alone is therefore a test for NaN, the one value no user can mean;
+    a comparison with an ordinary number (`phi2 == 0.`) makes that number unusable as a parameter value."""
+    from rules.inverse import _keys_deep
+    name = "inner_op::lcc::new"
+    if not cx.f.has_fn(name):
+        cx.ob("R-LAT2-SENTINEL", "anchor", False, "anchor-missing: %s" % name)
+        return
+    f = cx.f.fn(name)
+    n = 0
+    for bb in sorted(f.reachable()):
+        sw = f.term(bb)
+        if sw["k"] != "switch":
+            continue
+        c = mir.strip_refs(f.operand(sw["discr"], f.end_point(bb)))
+        if _keys_deep(f, c) != {"lat_2"}:
+            continue
+        while c[0] == "un" and c[1] == "Not":
+            c = mir.strip_refs(c[2])
+        n += 1
+        ok = c[0] == "call" and isinstance(c[1], str) and c[1].endswith("::is_nan")
+        cx.ob("R-LAT2-SENTINEL", "lcc/test%d" % (n - 1), ok,
+              "lcc decides on the presence of lat_2 by is_nan" if ok else
+              "lcc::new decides on lat_2 alone by `%s`: a second standard parallel with that value is silently taken for "
+              "`not given`, and the projection becomes the tangent cone at lat_1" % mir.show(c, maxd=3)[:80],
+              cx.where(sw["span"]))
+    cx.count("R-LAT2-SENTINEL", "tests", n)
